@@ -15,6 +15,8 @@ import Mathlib.Data.List.Basic
 import Mathlib.Data.Rat.Defs
 import Mathlib.Algebra.Order.Ring.Rat
 
+set_option linter.unusedSectionVars false
+
 namespace OdlModel.Interp
 
 section
